@@ -20,6 +20,7 @@ func init() {
 		CowRMW(c, "R-RMW")
 		CowSnapshot(c, "R-SNAPSHOT")
 		CowCTA(c)
+		CowOnePublish(c, "R-ONE-PUBLISH")
 	})
 }
 
@@ -282,7 +283,7 @@ func CowCTA(c *core.Ctx) {
 		}
 	}
 	c.Floor("R-ONE-LOAD", "read-only methods", nRead, 3)
-	c.Floor("R-CTA", "writing methods", nWrite, 4)
+	c.Floor("R-CTA", "writing methods", nWrite, 3)
 	_ = token.NoPos
 }
 
@@ -397,4 +398,147 @@ func CowRMW(c *core.Ctx, rule string) {
 		}
 	}
 	c.Floor(rule, "snapshot reads feeding a Store", n, 1)
+}
+
+// CowOnePublish — R-ONE-PUBLISH: one operation, one publication.
+//
+// A method "publishes" when it calls copyOnWrite (the only place a new snapshot is stored, see R-LOCKSET) or calls a
+// publishing method on its own receiver. An operation that publishes more than once — two publishing calls in
+// sequence, or one inside a loop — is visible to concurrent readers in its intermediate states, i.e. it is not applied
+// atomically at one instant. Publishing calls on mutually exclusive branches count once.
+func CowOnePublish(c *core.Ctx, rule string) {
+	c.Rule(rule, "every method of CopyOnWriteMap publishes at most one new snapshot per call: at most one publishing call (copyOnWrite or a publishing method of the same receiver) on any path, and none inside a loop")
+	p := c.Pkg("mutable")
+	info := p.TypesInfo
+	type meth struct {
+		fb   *fnBody
+		recv types.Object
+	}
+	var ms []meth
+	for _, fb := range funcBodies(c, []*packages.Package{p}) {
+		if fb.Lit != nil || fb.Decl.Recv == nil || core.RecvTypeName(fb.Decl.Recv.List[0].Type) != "CopyOnWriteMap" || len(fb.Decl.Recv.List[0].Names) != 1 {
+			continue
+		}
+		ms = append(ms, meth{fb, info.Defs[fb.Decl.Recv.List[0].Names[0]]})
+	}
+	publishes := map[string]bool{"copyOnWrite": true}
+	recvCallee := func(m meth, call *ast.CallExpr) string {
+		sel, ok := ast.Unparen(call.Fun).(*ast.SelectorExpr)
+		if !ok || objOf(info, sel.X) != m.recv {
+			return ""
+		}
+		return sel.Sel.Name
+	}
+	for changed := true; changed; {
+		changed = false
+		for _, m := range ms {
+			if publishes[m.fb.Decl.Name.Name] {
+				continue
+			}
+			ast.Inspect(m.fb.Body, func(x ast.Node) bool {
+				if call, ok := x.(*ast.CallExpr); ok && publishes[recvCallee(m, call)] {
+					publishes[m.fb.Decl.Name.Name] = true
+					changed = true
+				}
+				return true
+			})
+		}
+	}
+	n := 0
+	for _, m := range ms {
+		name := m.fb.Decl.Name.Name
+		if name == "copyOnWrite" || !publishes[name] {
+			continue
+		}
+		n++
+		// max number of publishing calls on a path; loops multiply
+		inLoop := false
+		var loopCall *ast.CallExpr
+		var count func(nd ast.Node, loop bool) int
+		countList := func(list []ast.Stmt, loop bool) int {
+			t := 0
+			for _, s := range list {
+				t += count(s, loop)
+			}
+			return t
+		}
+		count = func(nd ast.Node, loop bool) int {
+			switch s := nd.(type) {
+			case nil:
+				return 0
+			case *ast.BlockStmt:
+				return countList(s.List, loop)
+			case *ast.IfStmt:
+				t := count(s.Init, loop) + count(s.Cond, loop)
+				a, b := count(s.Body, loop), 0
+				if s.Else != nil {
+					b = count(s.Else, loop)
+				}
+				if b > a {
+					a = b
+				}
+				return t + a
+			case *ast.ForStmt:
+				return count(s.Init, loop) + count(s.Cond, true) + count(s.Post, true) + count(s.Body, true)
+			case *ast.RangeStmt:
+				return count(s.X, loop) + count(s.Body, true)
+			case *ast.SwitchStmt:
+				t := count(s.Init, loop) + count(s.Tag, loop)
+				mx := 0
+				for _, cl := range s.Body.List {
+					if k := countList(cl.(*ast.CaseClause).Body, loop); k > mx {
+						mx = k
+					}
+				}
+				return t + mx
+			case *ast.TypeSwitchStmt:
+				mx := 0
+				for _, cl := range s.Body.List {
+					if k := countList(cl.(*ast.CaseClause).Body, loop); k > mx {
+						mx = k
+					}
+				}
+				return mx
+			case *ast.FuncLit:
+				// a literal handed to copyOnWrite runs inside that one publication; literals stored or deferred are counted as if run once
+				return count(s.Body, loop)
+			}
+			t := 0
+			ast.Inspect(nd, func(x ast.Node) bool {
+				if x == nil || x == nd {
+					return true
+				}
+				switch y := x.(type) {
+				case *ast.BlockStmt, *ast.IfStmt, *ast.ForStmt, *ast.RangeStmt, *ast.SwitchStmt, *ast.TypeSwitchStmt, *ast.FuncLit:
+					t += count(y, loop)
+					return false
+				case *ast.CallExpr:
+					if publishes[recvCallee(m, y)] {
+						t++
+						if loop {
+							inLoop, loopCall = true, y
+						}
+					}
+				}
+				return true
+			})
+			if call, ok := nd.(*ast.CallExpr); ok && publishes[recvCallee(m, call)] {
+				t++
+				if loop {
+					inLoop, loopCall = true, call
+				}
+			}
+			return t
+		}
+		k := count(m.fb.Body, false)
+		switch {
+		case inLoop:
+			c.Add(rule, m.fb.Name, loopCall.Pos(), core.Violated, "publishes a new snapshot inside a loop ("+exprString(loopCall.Fun)+"): one call of "+name+" is visible to concurrent readers as a series of intermediate maps, not as one atomic step")
+		case k > 1:
+			c.Add(rule, m.fb.Name, m.fb.Decl.Pos(), core.Violated, "publishes "+itoa(k)+" snapshots on one path: the operation is not applied at one instant")
+		default:
+			c.Add(rule, m.fb.Name, m.fb.Decl.Pos(), core.Discharged, "at most one publication per call")
+		}
+	}
+	c.Floor(rule, "publishing methods", n, 4)
 }
